@@ -196,6 +196,7 @@ fn fmt_code(v: u64) -> String {
         4 => format!("export-size(n={},order={c},subject={d})", (a << 14) | b),
         5 => format!("new(type#{a})"),
         6 => format!("bigtree-history(case#{a})"),
+        7 => format!("bigk-history(case#{a})"),
         _ => format!("step#{v:#x}"),
     }
 }
@@ -1222,6 +1223,182 @@ fn sweep_bigtree(a: &Args) -> ! {
     finish(acc.report(t0, a.get("only").is_none(), ""), a)
 }
 
+
+// ---------------------------------------------------------------------------
+// bigk: long histories on expiring trees of hundreds to thousands of entries (u32 keys): waves of inserts
+// through expired, never-queried entries, then queries and export
+// ---------------------------------------------------------------------------
+
+fn bigk_history(hint: usize, n: u32, order: u32, pat: u32, list: bool, acc: &mut Acc, case_no: u64) {
+    use i_tree::key::exp::KeyExpCollection as KC;
+    let subj = if list { "KeyExpList<BKey,u32,u32>" } else { "KeyExpTree<BKey,u32,u32>" };
+    let case = vec![
+        format!("{subj}::new({hint})"),
+        format!("{n} keys in order #{order}, three waves at times 0,1,2 with expirations wave+1+(i*(2*{pat}+3)) mod 3, then re-insertion of expired keys at time 3, lookups of every key, export"),
+        format!("--only {hint},{n},{order},{pat},{}", list as u8),
+    ];
+    rt::hist_reset();
+    rt::hist_push(code(7, case_no, 0, 0, 0));
+    let first = rt::my_history().first().copied();
+    let beat = || {
+        rt::hist_reset();
+        if let Some(c) = first {
+            rt::hist_push(c);
+        }
+    };
+    let r = guard(|| -> Result<(), (String, String)> {
+        let mut tree: Option<KeyExpTree<BKey, u32, u32>> = if list { None } else { Some(KeyExpTree::new(hint)) };
+        let mut lst: Option<KeyExpList<BKey, u32, u32>> = if list { Some(KeyExpList::new(hint)) } else { None };
+        let mut model: BTreeMap<u32, (u32, u32)> = BTreeMap::new(); // key -> (exp, val)
+        let wave = |i: u32| (i * (1 + pat % 3) + pat / 3) % 3;
+        let exp0 = |i: u32| 1 + (i * (2 * pat + 3) + order) % 3;
+        let perm = big_perm(n, order);
+        let structure = |tree: &Option<KeyExpTree<BKey, u32, u32>>, peak: usize, what: &str| -> Result<(), (String, String)> {
+            if let Some(t) = tree {
+                let sn = t.verif_snapshot();
+                let a = crate::inv::analyze(&sn, |p| p.0.id);
+                if let Some(e) = a.rb_errors.first() {
+                    return Err(("structure".into(), format!("{what}: {e}")));
+                }
+                if let Some(e) = a.arena_errors.first() {
+                    return Err(("arena".into(), format!("{what}: {e}")));
+                }
+                if a.inorder.len() + sn.unused.len() + 1 != sn.slots.len() {
+                    return Err(("arena".into(), format!("{what}: {} linked + {} free + sentinel != {} slots", a.inorder.len(), sn.unused.len(), sn.slots.len())));
+                }
+                let bound = 8 * (peak + 1) + hint.max(8);
+                if sn.slots.len() > bound {
+                    return Err(("growth".into(), format!("{what}: buffer holds {} slots for a peak population of {peak} (bound {bound})", sn.slots.len())));
+                }
+            }
+            Ok(())
+        };
+        let mut t = 0u32;
+        for w in 0..3u32 {
+            for (j, &i) in perm.iter().enumerate() {
+                if wave(i) != w {
+                    continue;
+                }
+                let k = BKey { id: i * 2 + 1, exp: w + exp0(i) };
+                let v = i * 2 + 1 + 1000 * k.exp;
+                if let Some(tr) = tree.as_mut() {
+                    KC::insert(tr, k, v, t);
+                }
+                if let Some(l) = lst.as_mut() {
+                    KC::insert(l, k, v, t);
+                }
+                model.insert(k.id, (k.exp, v));
+                if j % (n as usize / 6).max(499) == 0 {
+                    beat();
+                    structure(&tree, n as usize, "during the insert waves")?;
+                }
+            }
+            t += 1;
+        }
+        // t == 3: re-insert (without looking them up first) the keys whose entry has expired
+        for &i in perm.iter() {
+            let id = i * 2 + 1;
+            if model[&id].0 <= t {
+                let k = BKey { id, exp: 9 };
+                let v = id + 9000;
+                if let Some(tr) = tree.as_mut() {
+                    KC::insert(tr, k, v, t);
+                }
+                if let Some(l) = lst.as_mut() {
+                    KC::insert(l, k, v, t);
+                }
+                model.insert(id, (9, v));
+            }
+        }
+        beat();
+        structure(&tree, n as usize, "after the re-insertions")?;
+        // every key, and the gaps, at time 3
+        for id in 0..=2 * n + 1 {
+            let want = model.get(&id).filter(|(e, _)| *e > t).map(|(_, v)| *v);
+            let probe = BKey { id, exp: 0 };
+            let got = match (tree.as_mut(), lst.as_mut()) {
+                (Some(tr), _) => KC::get_value(tr, t, probe),
+                (_, Some(l)) => KC::get_value(l, t, probe),
+                _ => None,
+            };
+            if got != want {
+                return Err(("get_value".into(), format!("get_value(time {t}, key {id}) = {got:?}, reference says {want:?}")));
+            }
+            let pred = model.range(..=id).rev().find(|(_, (e, _))| *e > t).map(|(_, (_, v))| *v).unwrap_or(0);
+            let gotp = match (tree.as_mut(), lst.as_mut()) {
+                (Some(tr), _) => KC::first_less_or_equal(tr, t, 0, probe),
+                (_, Some(l)) => KC::first_less_or_equal(l, t, 0, probe),
+                _ => 0,
+            };
+            if gotp != pred {
+                return Err(("first_less_or_equal".into(), format!("first_less_or_equal(time {t}, probe {id}) = {gotp}, reference says {pred}")));
+            }
+            if id % 4096 == 0 {
+                beat();
+            }
+        }
+        structure(&tree, n as usize, "after the lookups")?;
+        let want: Vec<u32> = model.values().filter(|(e, _)| *e > 5).map(|(_, v)| *v).collect();
+        let stored = tree.as_ref().map(|tr| crate::inv::analyze(&tr.verif_snapshot(), |p| p.0.id).inorder.len()).or(lst.as_ref().map(|l| l.verif_snapshot().0.len())).unwrap_or(0);
+        let got = match (tree.take(), lst.take()) {
+            (Some(tr), _) => tr.into_ordered_vec(5),
+            (_, Some(l)) => l.into_ordered_vec(5),
+            _ => vec![],
+        };
+        if got != want {
+            return Err(("export".into(), format!("into_ordered_vec(5) returned {} values, reference says {}", got.len(), want.len())));
+        }
+        if got.capacity() > 8 * stored + 64 {
+            return Err(("export-capacity".into(), format!("into_ordered_vec returned capacity {} for {stored} stored entries", got.capacity())));
+        }
+        Ok(())
+    });
+    acc.transitions += 4 * n as u64;
+    acc.evals += 4 * n as u64;
+    acc.nontrivial += 1;
+    acc.states.insert(fingerprint(format!("k:{hint}:{n}:{order}:{pat}:{list}").as_bytes()));
+    match r {
+        Ok(Ok(())) => {}
+        Ok(Err((tag, msg))) => acc.viol("history", &tag, msg, case.clone()),
+        Err(_) => acc.viol("history", "panic", format!("the subject panicked: {}", rt::last_panic()), case.clone()),
+    }
+    if acc.samples.is_empty() {
+        acc.samples.push(case);
+    }
+}
+
+fn sweep_bigk(a: &Args) -> ! {
+    let t0 = Instant::now();
+    let prop = a.prop();
+    let list = a.get("sys").unwrap_or("ktree") == "klist";
+    let sys = if list { "KeyExpList<BKey,u32,u32>" } else { "KeyExpTree<BKey,u32,u32>" };
+    register(a, sys);
+    let mut cases: Vec<(usize, u32, u32, u32)> = vec![];
+    if let Some(o) = a.get("only") {
+        let p: Vec<u32> = o.split(',').map(|x| x.parse().unwrap()).collect();
+        cases.push((p[0] as usize, p[1], p[2], p[3]));
+    } else {
+        let sizes: Vec<u32> = a.get("sizes").unwrap_or("127,128,255,256,257,600,1500,4000").split(',').map(|x| x.parse().unwrap()).collect();
+        for hint in [0usize, 8, 9, 128, 256, 1000] {
+            for &n in &sizes {
+                for order in 0..3 {
+                    for pat in 0..6 {
+                        cases.push((hint, n, order, pat));
+                    }
+                }
+            }
+        }
+    }
+    let cs = &cases;
+    let acc = parallel(cases.len(), a.num("threads", 16) as usize, prop, sys, |i, acc| {
+        let (hint, n, order, pat) = cs[i];
+        bigk_history(hint, n, order, pat, list, acc, i as u64);
+    });
+    let mut acc = acc;
+    acc.count("histories", cases.len() as u64);
+    finish(acc.report(t0, a.get("only").is_none(), ""), a)
+}
+
 pub fn dispatch(a: &Args) -> ! {
     match a.get("kind").unwrap_or("") {
         "pairs" => sweep_pairs(a),
@@ -1231,6 +1408,7 @@ pub fn dispatch(a: &Args) -> ! {
         "export-sizes" => sweep_export_sizes(a),
         "niche" => sweep_niche(a),
         "bigtree" => sweep_bigtree(a),
+        "bigk" => sweep_bigk(a),
         _ => die("unknown --kind"),
     }
 }
